@@ -116,6 +116,21 @@ func layoutVariants(text string, thorough bool) map[string]string {
 			out[fmt.Sprintf("ins%d@%d", k, i)] = join(v)
 		}
 	}
+	// an inline comment after a definition, introduced by either marker and containing the other one
+	for i, l := range lines {
+		t := strings.TrimSpace(l)
+		if t == "" || t[0] == '#' || t[0] == ';' || t[0] == '[' || isContinuation(l) || strings.ContainsAny(t, "#;") || (i > 0 && isContinuation(lines[i-1])) {
+			continue
+		}
+		for k, tail := range []string{" # the note; it has = both [markers]", " ; the note # it has = both [markers]", "\t#x;y", "#;"} {
+			v := append([]string(nil), lines...)
+			v[i] = l + strings.ReplaceAll(tail, "\\t", "\t")
+			out[fmt.Sprintf("inline%d@%d", k, i)] = join(v)
+		}
+		if !thorough && i > 6 {
+			break
+		}
+	}
 	// continuation split at every single blank inside a definition line
 	for i, l := range lines {
 		t := strings.TrimSpace(l)
@@ -193,7 +208,7 @@ func requestUniverse(csvPath string) [][]interface{} {
 }
 
 func runC08(c *Ctx) {
-	c.Rule = "every examples/*.conf plus generated model texts x the layout transformations (CRLF, padding every line, padding one line past 4 KiB on either side, the last line padded to exactly 4096/8192 bytes without a final newline, tabs around '=' and ',' inside r/p definitions, blank/#/; lines at every position outside a continuation, backslash continuation split at every single blank of every definition line incl. past 4 KiB, reversed and rotated section order): the assertions (Key, Value, Tokens, ParamsTokens of r/p/g/e/m) of the real NewModelFromString are compared with the Lean mirror, and every variant with its original (same definitions) and on the example's policy with the original's decisions; arbitrary text (mutated examples, random bytes) for totality; non-trivial = a variant that differs textually from its original and loads; distinct = variant text"
+	c.Rule = "every examples/*.conf plus generated model texts x the layout transformations (CRLF, padding every line, padding one line past 4 KiB on either side, the last line padded to exactly 4096/8192 bytes without a final newline, tabs around '=' and ',' inside r/p definitions, blank/#/; lines at every position outside a continuation, an inline comment after every definition introduced by either marker and containing the other, backslash continuation split at every single blank of every definition line incl. past 4 KiB, reversed and rotated section order): the assertions (Key, Value, Tokens, ParamsTokens of r/p/g/e/m) of the real NewModelFromString are compared with the Lean mirror, and every variant with its original (same definitions) and on the example's policy with the original's decisions; arbitrary text (mutated examples, random bytes) for totality; non-trivial = a variant that differs textually from its original and loads; distinct = variant text"
 	files, _ := filepath.Glob("/repo/examples/*.conf")
 	sort.Strings(files)
 	texts := map[string]string{}
